@@ -29,6 +29,9 @@ def run(rep, idx, tier):
     if require_supported(rep, "C13.1", c):
         monitor(rep, idx, c)
     apirules.eventmap_typestate(rep, idx, "C13.5")
+    # a refused Monitor(...) leaves the caller's event map as it was (not frozen): its later add() calls are still numbered
+    rep.require("C13.7", 1)
+    apirules.atomic(rep, "C13.7", idx, idx.find_func("event:Monitor.__init__"), roots=('param', 'global'))
 
 
 def monitor(rep, idx, c):
